@@ -158,7 +158,7 @@ func AckCheck(c *Ctx, fn *ssa.Function, musts []Must, allow func(rp RetPath) str
 		}
 		okAll := true
 		for _, m := range musts {
-			calls := CallsIn(fn, m.M)
+			calls := CallsIn(fn, c.P.AckCall(m.M))
 			if len(calls) == 0 {
 				c.Undecided("nocall:"+FuncName(fn)+":"+m.Name, fn.Pos(), "%s no longer calls %s", FuncName(fn), m.Name)
 				okAll = false
@@ -218,6 +218,9 @@ func ackOne(rp RetPath, calls []ssa.CallInstruction) bool {
 // matching m (in the same function) was tested == nil.
 func GuardedByNilErr(in ssa.Instruction, m Matcher) bool {
 	facts := FactsAtInstr(in)
+	if Current != nil {
+		m = Current.AckCall(m)
+	}
 	for _, call := range CallsIn(in.Parent(), m) {
 		if !Dominates(call.(ssa.Instruction), in) {
 			continue
@@ -233,6 +236,10 @@ func GuardedByNilErr(in ssa.Instruction, m Matcher) bool {
 // MustPrecede: every site matching B in fn is dominated by a site matching A.
 // Returns number of B sites.
 func MustPrecede(c *Ctx, fn *ssa.Function, a Matcher, aName string, b Matcher, bName string) int {
+	return PrecedeI(c, fn, CallSel(a), aName, CallSel(b), bName)
+}
+
+func mustPrecedeOld(c *Ctx, fn *ssa.Function, a Matcher, aName string, b Matcher, bName string) int {
 	as := CallsIn(fn, a)
 	bs := CallsIn(fn, b)
 	if len(bs) == 0 {
